@@ -62,8 +62,8 @@ def eval_call(ex: Executor, node: ast.Call, st: State):
             return call_value(ex, node, st, st.env[name])
         if name in BUILTINS:
             return BUILTINS[name](ex, node, st)
-        if name in T.classes():
-            return call_class(ex, node, st, name)
+        if T.classes().local(name, ex.module) in T.classes():
+            return call_class(ex, node, st, T.classes().local(name, ex.module))
         target = ex.registry.lookup_function(ex.module, name)
         if target is not None:
             return call_contract(ex, node, st, target)
@@ -277,6 +277,7 @@ def call_value(ex, node, st, fv: SV):
 
 def call_class(ex, node, st, name: str):
     mod = T.classes().repo_module.get(name)
+    real = T.classes().real_name.get(name, name)
     model = ex.registry.class_model(name)
     if model is not None:
         return model(ex, node, st)
@@ -290,7 +291,7 @@ def call_class(ex, node, st, name: str):
             o = ex.new_obj(s, K(name), "obj")
             outs.append((s, "val", sv_val(o)))
         return outs
-    cdef = source.find_class(mod, name)
+    cdef = source.find_class(mod, real)
     init = None
     for stt in cdef.body:
         if isinstance(stt, ast.FunctionDef) and stt.name == "__init__":
@@ -306,7 +307,7 @@ def call_class(ex, node, st, name: str):
         return outs
     # dataclass: assign declared fields positionally / by keyword
     is_dc = any((isinstance(d, ast.Name) and d.id == "dataclass") or (isinstance(d, ast.Call) and getattr(d.func, "id", getattr(d.func, "attr", "")) == "dataclass") for d in cdef.decorator_list)
-    fields = source.dataclass_fields(mod, name)
+    fields = source.dataclass_fields(mod, real)
     if not is_dc and not fields:
         raise Unsupported(f"instantiating class {name}")
     for s, k, vs in _args(ex, node, st):
@@ -564,6 +565,7 @@ def call_super(ex, node, st):
     if ex.fn.cls is None:
         raise Unsupported("super() outside class")
     bases = source.class_bases(ex.fn.module).get(ex.fn.cls.name, [])
+    bases = list(bases)
     for b in bases:
         target = f"{ex.fn.module}:{b}.{meth}"
         if ex.registry.contract_for(target) is not None:
